@@ -26,6 +26,9 @@ def make_datasets(work, rng, H=10, W=10):
     v3 = np.stack([vals, vals[::-1] + 1, vals.T[:H, :W] + 2]) if H == W else np.stack([vals, vals + 1, vals + 2])
     out.append(('nan_3band', synth.write_tif(work / 'io_3b.tif', v3, T0, mask=mask, encoding='nan')))
     out.append(('plain_nomask', synth.write_tif(work / 'io_plain.tif', vals, T0, encoding='none')))
+    # several bands read in ONE call from files whose validity is an internal mask / an alpha band (hidden values under the masked pixels)
+    out.append(('mask_3band', synth.write_tif(work / 'io_mask3.tif', v3, T0, mask=mask, encoding='mask', hidden=hidden)))
+    out.append(('rgba_u8', synth.write_tif(work / 'io_rgba.tif', np.clip(v3, 1, 250), T0, dtype='uint8', mask=mask, encoding='alpha', hidden=int(hidden) % 250)))
     return out
 
 
